@@ -6,21 +6,22 @@ package main
 //
 //	new                         fresh tree
 //	add <p> <v> | del <q> | get <p> | walks      sequential set-up / inspection
-//	win  <pA> <vA> <pB> <vB>    forced upgrade window: Add(pA) is driven into the
-//	                            reader->writer lock exchange of intermediateAdd, Add(pB)
-//	                            (beneath the same node) runs to completion inside the
-//	                            window, then Add(pA) resumes.  Observation:
-//	                            "<resA>,<resB> <sorted walk>".
-//	win2 <pA> <vA> <pB> <vB>    both adds are driven into the window at the same node, then
-//	                            released A first (needs the ctree.add.upgrade hook; without
-//	                            it the two adds run sequentially in the same linearisation
-//	                            order, which yields the same observation).
-//	windh <pA> <vA> <q>         (only generated and only runnable when the harness is built with the
-//	                            ctree.add.upgrade hook) Add(pA) is parked in the window at the ROOT (it
-//	                            then holds no lock at all), Delete(q) runs completely, Add(pA) resumes
-//	                            and re-checks a tree that may have been emptied.  When the add's window
-//	                            is not at the root (the delete would have to wait) the add runs first,
-//	                            then the delete.  "<resA>,<removed> <sorted walk>".
+//	win  <pA> <vA> <pB> <vB>    forced upgrade window: the goroutine running Add(pA) is parked at
+//	                            the schedule point `ctree.add.upgrade` (between RUnlock and Lock of
+//	                            intermediateAdd), a second real Add(pB) (beneath the same node) runs
+//	                            to completion inside the window, then Add(pA) resumes.  Observation:
+//	                            "<resA>,<resB> <sorted walk>".  When Add(pA) needs no new node, or
+//	                            pB does not lie beneath the window node: A, then B, sequentially.
+//	win2 <pA> <vA> <pB> <vB>    both adds are parked in the window at the same node, then released
+//	                            A first (when their windows differ: sequentially A, B).
+//	windh <pA> <vA> <q>         Add(pA) is parked in the window at the ROOT (it then holds no lock at
+//	                            all), Delete(q) runs completely, Add(pA) resumes and re-checks a tree
+//	                            that may have been emptied.  When the add's window is not at the root
+//	                            (the delete would have to wait) the add runs first, then the delete.
+//	                            "<resA>,<removed> <sorted walk>".
+//
+// The schedule point is the `verif`-tagged hook of /repo/ctree (verif_on.go); the harness
+// does not build without it.
 //	stress <seed> <G> <rounds> <mode>   free-running goroutines, recorded histories, monitors
 //	                            evaluated here; observation "ok" or the first failing monitor.
 //
@@ -117,7 +118,7 @@ func (c *ccComp) Gen(r *rand.Rand, tier string) []string {
 			added = append(added, pA, pB)
 		case x < 60:
 			seq = append(seq, fmt.Sprintf("win %s %d %s %d", encPath(ccLit(r, 3)), nv(), encPath(ccLit(r, 3)), nv()))
-		case x < 65 && ccHookAvailable():
+		case x < 65:
 			pA := append([]string{fmt.Sprintf("n%d", r.Intn(3))}, ccLit(r, 2)[:r.Intn(2)]...)
 			q := ccLit(r, 2)
 			switch r.Intn(4) {
@@ -130,7 +131,7 @@ func (c *ccComp) Gen(r *rand.Rand, tier string) []string {
 			}
 			seq = append(seq, fmt.Sprintf("windh %s %d %s", encPath(pA), nv(), encPath(q)))
 			added = append(added, pA)
-		case x < 78: // (also x in [60,65) when the hook is absent)
+		case x < 78:
 			p := ccLit(r, 3)
 			added = append(added, p)
 			seq = append(seq, fmt.Sprintf("add %s %d", encPath(p), nv()))
@@ -182,6 +183,14 @@ func (c *ccComp) Exhaustive(tier string) [][]string {
 				}
 			}
 		}
+		// a delete inside the root window of every add
+		for _, a := range paths {
+			for _, q := range [][]string{nil, {"*"}, {"a"}, {"b"}, {"a", "z"}, {"a", "*"}} {
+				seq := append([]string{"new"}, su...)
+				seq = append(seq, fmt.Sprintf("windh %s 1 %s", encPath(a), encPath(q)), "walks")
+				out = append(out, seq)
+			}
+		}
 	}
 	return out
 }
@@ -209,7 +218,7 @@ func (c *ccComp) Run(args []string) string {
 		return "bad-op"
 	}
 	if args[0] == "new" {
-		ccInstallHook(ccHook) // no-op unless built with the ctree.add.upgrade hook
+		ccInstallHook(ccHook)
 		c.t = &ctree.Tree{}
 		return "ok"
 	}
@@ -235,16 +244,12 @@ func (c *ccComp) Run(args []string) string {
 	case "walks":
 		return c.walks()
 	case "_stats": // manual use only (never generated): how many window schedules were really forced
-		return fmt.Sprintf("forced=%d fallback=%d search-gave-up=%d", atomic.LoadInt64(&ccForced),
-			atomic.LoadInt64(&ccFallback), atomic.LoadInt64(&ccGaveUp))
+		return fmt.Sprintf("forced=%d search-gave-up=%d", atomic.LoadInt64(&ccForced), atomic.LoadInt64(&ccGaveUp))
 	case "win", "win2":
 		vA, _ := strconv.Atoi(args[2])
 		vB, _ := strconv.Atoi(args[4])
 		return c.window(args[0] == "win2", decPath(args[1]), vA, decPath(args[3]), vB)
 	case "windh":
-		if !ccHookAvailable() {
-			return "needs-hook"
-		}
 		vA, _ := strconv.Atoi(args[2])
 		return c.windowDelete(decPath(args[1]), vA, decPath(args[3]))
 	case "stress":
@@ -295,7 +300,7 @@ func ccHasPrefix(p, pre []string) bool {
 	return true
 }
 
-var ccForced, ccFallback, ccGaveUp int64 // statistics (stderr only)
+var ccForced, ccGaveUp int64 // statistics (`_stats`)
 
 func (c *ccComp) window(both bool, pA []string, vA int, pB []string, vB int) string {
 	res := func(a, b error) string { return ccStatus(a) + "," + ccStatus(b) + " " + c.walks() }
@@ -311,53 +316,14 @@ func (c *ccComp) window(both bool, pA []string, vA int, pB []string, vB int) str
 			b := c.t.Add(pB, vB)
 			return res(a, b)
 		}
-		if ccHookAvailable() {
-			ga := ccNewGate()
-			doneA := make(chan error, 1)
-			go func() { ga.bind(); defer ga.unbind(); doneA <- c.t.Add(pA, vA) }()
-			if w := ga.waitParked(doneA); w != "" {
-				return w
-			}
-			b := c.t.Add(pB, vB) // a real competing Add, entirely inside A's window
-			ga.release()
-			a, tout := ccWaitErr(doneA)
-			if tout {
-				return ccTimedOut("deadlock")
-			}
-			atomic.AddInt64(&ccForced, 1)
-			return res(a, b)
-		}
-		if _, probe := x.VerifWriterPending(); !probe {
-			atomic.AddInt64(&ccFallback, 1)
-			b := c.t.Add(pB, vB)
-			a := c.t.Add(pA, vA)
-			return res(a, b)
-		}
-		// no hook: keep A inside the window by holding x's read lock from outside; the
-		// competing writer is the real slowAdd run on x by this goroutine.
-		x.VerifRLock()
+		ga := ccNewGate()
 		doneA := make(chan error, 1)
-		go func() { doneA <- c.t.Add(pA, vA) }()
-		dl := time.Now().Add(ccDeadline)
-		for {
-			if p, _ := x.VerifWriterPending(); p {
-				break
-			}
-			select {
-			case <-doneA:
-				// the add finished although the node it had to write-lock was read-locked
-				x.VerifRUnlock()
-				return "window-not-entered " + c.walks()
-			default:
-			}
-			if time.Now().After(dl) {
-				x.VerifRUnlock()
-				return ccTimedOut("stuck-before-window")
-			}
-			time.Sleep(20 * time.Microsecond)
+		go func() { ga.bind(); defer ga.unbind(); doneA <- c.t.Add(pA, vA) }()
+		if w := ga.waitParked(doneA); w != "" {
+			return w
 		}
-		b := x.VerifSlowAdd(pB[depth:], vB)
-		x.VerifRUnlock()
+		b := c.t.Add(pB, vB) // a real competing Add, entirely inside A's window
+		ga.release()
 		a, tout := ccWaitErr(doneA)
 		if tout {
 			return ccTimedOut("deadlock")
@@ -368,10 +334,7 @@ func (c *ccComp) window(both bool, pA []string, vA int, pB []string, vB int) str
 	// win2: A and B both inside the window at the same node; release A, then B.  Order A, B.
 	y, depthB, okB := c.windowNode(pB)
 	valid := ok && okB && x == y && depth == depthB
-	if !valid || !ccHookAvailable() {
-		if valid {
-			atomic.AddInt64(&ccFallback, 1)
-		}
+	if !valid {
 		a := c.t.Add(pA, vA)
 		b := c.t.Add(pB, vB)
 		return res(a, b)
@@ -989,7 +952,7 @@ func (c *ccComp) stress(seed int64, G, rounds int, mode string) (verdict string)
 						doQuery(nil, false)
 					}
 				case "hd":
-					// handle updates concurrent with deletes (known defect D15 under -race)
+					// handle updates concurrent with deletes (must be race free: regression for D15)
 					for i := 0; i < 6; i++ {
 						switch x := r.Intn(100); {
 						case x < 30:
@@ -1051,7 +1014,7 @@ func (c *ccComp) stress(seed int64, G, rounds int, mode string) (verdict string)
 			handles = handles[len(handles)-64:]
 		}
 		if rtype == "hd" {
-			continue // histories with handle updates racing deletes are not checked (D15)
+			continue // a handle may get detached mid-round: these histories are only run for -race
 		}
 		// monitor: concurrent adds beneath a new branch all survive
 		if rtype == "fresh" {
